@@ -23,6 +23,7 @@ type c10Scn struct {
 	S         int    `json:"streams_in_flight"`
 	PeerReads bool   `json:"peer_drains_responses"`
 	UnaryKind string `json:"unary_handler"` // ctx-gate | gate-only
+	Early     int    `json:"unary_completed_before_the_end,omitempty"` // the first Early unary calls finish before the end cause
 }
 
 type c10Case struct {
@@ -36,14 +37,28 @@ var c10StreamKinds = []string{"recv", "send2-then-ctx-gate", "ctx-gate", "send-u
 
 func c10Scenarios(tier string, seed int64) []c10Scn {
 	out := []c10Scn{
-		{0, 0, true, "ctx-gate"}, {1, 0, true, "ctx-gate"}, {0, 1, true, "ctx-gate"}, {2, 2, true, "gate-only"},
-		{8, 0, true, "gate-only"}, {0, 8, true, "ctx-gate"}, {3, 4, false, "ctx-gate"}, {8, 8, true, "ctx-gate"},
-		{1, 3, false, "gate-only"}, {4, 1, true, "ctx-gate"}, {2, 5, true, "gate-only"}, {5, 2, false, "ctx-gate"},
+		{0, 0, true, "ctx-gate", 0}, {1, 0, true, "ctx-gate", 0}, {0, 1, true, "ctx-gate", 0}, {2, 2, true, "gate-only", 0},
+		{8, 0, true, "gate-only", 0}, {0, 8, true, "ctx-gate", 0}, {3, 4, false, "ctx-gate", 0}, {8, 8, true, "ctx-gate", 0},
+		{1, 3, false, "gate-only", 0}, {4, 1, true, "ctx-gate", 0}, {2, 5, true, "gate-only", 0}, {5, 2, false, "ctx-gate", 0},
 	}
+	for i := range out {
+		out[i].Early = 0
+	}
+	// earlier unary calls finish while later ones are still in flight; and more unary requests than
+	// the 8 workers (the 9th waits in the read loop)
+	out = append(out, c10Scn{3, 0, true, "ctx-gate", 1}, c10Scn{6, 2, true, "ctx-gate", 3}, c10Scn{2, 1, true, "gate-only", 1},
+		c10Scn{9, 2, true, "ctx-gate", 0}, c10Scn{12, 2, true, "gate-only", 0}, c10Scn{9, 0, true, "ctx-gate", 0})
 	if tier == "thorough" {
 		r := rng(seed, 0, "c10sc")
 		for len(out) < 150 {
-			out = append(out, c10Scn{r.Intn(9), r.Intn(9), r.Intn(3) != 0, []string{"ctx-gate", "gate-only"}[r.Intn(2)]})
+			sc := c10Scn{r.Intn(9), r.Intn(9), r.Intn(3) != 0, []string{"ctx-gate", "gate-only"}[r.Intn(2)], 0}
+			if sc.U > 1 && r.Intn(3) == 0 {
+				sc.Early = 1 + r.Intn(sc.U-1)
+			}
+			if r.Intn(8) == 0 {
+				sc.U, sc.PeerReads = 9+r.Intn(4), true
+			}
+			out = append(out, sc)
 		}
 	}
 	return out
@@ -64,7 +79,11 @@ func c10List(tier string, seed int64) []c10Case {
 	for si, sc := range c10Scenarios(tier, seed) {
 		nreq := sc.U + sc.S
 		for p := 0; p <= nreq; p++ {
-			out = append(out, c10Case{sc, "read-fail", p, []int{1, 4, 16}[(si+p)%3]})
+			if sc.U <= 8 {
+				// with more than 8 unary requests the read loop is parked handing the 9th to the busy
+				// worker pool and does not read: it cannot notice a read failure before a worker is free
+				out = append(out, c10Case{sc, "read-fail", p, []int{1, 4, 16}[(si+p)%3]})
+			}
 			out = append(out, c10Case{sc, "stop", p, []int{1, 4, 16}[(si+p+1)%3]})
 		}
 		if sc.PeerReads {
@@ -120,6 +139,12 @@ func c10Run(tier string, seed int64, idx int) *core.Result {
 	impl.DefU = func(ctx context.Context, tag string, req []byte) ([]byte, error) {
 		r := enter(tag, false, ctx)
 		defer exit(r)
+		var k int
+		fmt.Sscanf(tag, "u%d", &k)
+		if k < c.Scn.Early {
+			gates.Wait("u-early") // released before the end cause: this call completes normally
+			return req, nil
+		}
 		if c.Scn.UnaryKind == "ctx-gate" {
 			<-ctx.Done()
 		}
@@ -240,6 +265,11 @@ func c10Run(tier string, seed int64, idx int) *core.Result {
 	}
 	mu.Unlock()
 	res.Stat("handlers_in_flight_at_end_cause", int64(inflight))
+	if c.Scn.Early > 0 {
+		gates.Open("u-early")
+		quiet(tier)
+		res.Stat("unary_calls_completed_before_end_cause", int64(c.Scn.Early))
+	}
 	switch c.Cause {
 	case "stop":
 		srv.Stop()
@@ -341,12 +371,12 @@ func init() {
 	core.Register(&core.Prop{
 		ID:    "C10",
 		Level: "fault_enumeration",
-		Rule:  "scenarios (quick 12 fixed, thorough 150 seeded) = U in 0..8 unary + S in 0..8 streaming handlers in flight (stream handlers cycle: blocked in receive / sent 2 then wait for ctx / wait for ctx / sending until blocked; unary handlers wait for ctx then a harness gate, or only the gate), responses drained by the scripted client or not; end cause x position: transport read failure after every prefix 0..U+S of the request sequence, Stop after every prefix, transport write failure at every response envelope, plus cancellation of Serve's own context. Distinct = (scenario, cause, position); all non-trivial (an end cause is injected in each).",
+		Rule:  "scenarios (quick 18 fixed, thorough 150 seeded) = U in 0..12 unary (more than the 8 workers: the 9th waits in the read loop; some scenarios let the first unary calls complete before the end cause) + S in 0..8 streaming handlers in flight (stream handlers cycle: blocked in receive / sent 2 then wait for ctx / wait for ctx / sending until blocked; unary handlers wait for ctx then a harness gate, or only the gate), responses drained by the scripted client or not; end cause x position: transport read failure after every prefix 0..U+S of the request sequence, Stop after every prefix, transport write failure at every response envelope, plus cancellation of Serve's own context. Distinct = (scenario, cause, position); all non-trivial (an end cause is injected in each).",
 		Plan:  func(tier string, seed int64) int { return len(c10List(tier, seed)) },
 		Run:   c10Run,
 		Exhaustive: func(string) bool { return true },
 		RequiredStats: func(string) []string {
-			return []string{"handler_contexts_sampled_at_serve_return", "serve_waited_for_gated_stream_handlers", "handlers_in_flight_at_end_cause"}
+			return []string{"handler_contexts_sampled_at_serve_return", "serve_waited_for_gated_stream_handlers", "handlers_in_flight_at_end_cause", "unary_calls_completed_before_end_cause"}
 		},
 		Assumptions: []string{"exhaustive refers to end-cause positions per scenario, not schedules", "a scripted client peer is used so that the process contains no goat client goroutines"},
 	})
